@@ -2091,14 +2091,20 @@ func marshalTuple(info TypeInfo, value interface{}) ([]byte, error) {
 	return nil, marshalErrorf("cannot marshal %T into %s", value, tuple)
 }
 
-func readBytes(p []byte) ([]byte, []byte) {
+func readBytes(p []byte) ([]byte, []byte, error) {
 	// TODO: really should use a framer
-	size := readInt(p)
+	if len(p) < 4 {
+		return nil, nil, unmarshalErrorf("unexpected eof: need 4 bytes for a length, got %d", len(p))
+	}
+	size := int(readInt(p))
 	p = p[4:]
 	if size < 0 {
-		return nil, p
+		return nil, p, nil
 	}
-	return p[:size], p[size:]
+	if len(p) < size {
+		return nil, nil, unmarshalErrorf("unexpected eof: need %d bytes, got %d", size, len(p))
+	}
+	return p[:size], p[size:], nil
 }
 
 // currently only support unmarshal into a list of values, this makes it possible
@@ -2116,7 +2122,11 @@ func unmarshalTuple(info TypeInfo, data []byte, value interface{}) error {
 			// each element inside data is a [bytes]
 			var p []byte
 			if len(data) >= 4 {
-				p, data = readBytes(data)
+				var err error
+				p, data, err = readBytes(data)
+				if err != nil {
+					return err
+				}
 			}
 			err := Unmarshal(elem, p, v[i])
 			if err != nil {
@@ -2145,7 +2155,11 @@ func unmarshalTuple(info TypeInfo, data []byte, value interface{}) error {
 		for i, elem := range tuple.Elems {
 			var p []byte
 			if len(data) >= 4 {
-				p, data = readBytes(data)
+				var err error
+				p, data, err = readBytes(data)
+				if err != nil {
+					return err
+				}
 			}
 
 			v, err := elem.NewWithError()
@@ -2182,7 +2196,11 @@ func unmarshalTuple(info TypeInfo, data []byte, value interface{}) error {
 		for i, elem := range tuple.Elems {
 			var p []byte
 			if len(data) >= 4 {
-				p, data = readBytes(data)
+				var err error
+				p, data, err = readBytes(data)
+				if err != nil {
+					return err
+				}
 			}
 
 			v, err := elem.NewWithError()
@@ -2330,8 +2348,11 @@ func unmarshalUDT(info TypeInfo, data []byte, value interface{}) error {
 				return unmarshalErrorf("can not unmarshal %s: field [%d]%s: unexpected eof", info, id, e.Name)
 			}
 
-			var p []byte
-			p, data = readBytes(data)
+			p, rest, err := readBytes(data)
+			if err != nil {
+				return err
+			}
+			data = rest
 			if err := v.UnmarshalUDT(e.Name, e.Type, p); err != nil {
 				return err
 			}
@@ -2373,8 +2394,11 @@ func unmarshalUDT(info TypeInfo, data []byte, value interface{}) error {
 
 			val := reflect.New(valType)
 
-			var p []byte
-			p, data = readBytes(data)
+			p, rest, err := readBytes(data)
+			if err != nil {
+				return err
+			}
+			data = rest
 
 			if err := Unmarshal(e.Type, p, val.Interface()); err != nil {
 				return err
@@ -2423,8 +2447,11 @@ func unmarshalUDT(info TypeInfo, data []byte, value interface{}) error {
 			return unmarshalErrorf("can not unmarshal %s: field [%d]%s: unexpected eof", info, id, e.Name)
 		}
 
-		var p []byte
-		p, data = readBytes(data)
+		p, rest, err := readBytes(data)
+		if err != nil {
+			return err
+		}
+		data = rest
 
 		f, ok := fields[e.Name]
 		if !ok {
